@@ -3,6 +3,7 @@ import BertE.Lemmas.Admin
 import BertE.Lemmas.PlanPr
 import BertE.Drv.C20
 import BertE.Lemmas.CloseC20Ex
+import BertE.Lemmas.Full2Inv
 /-
 C20 — admin jobs keep the repository well-formed or do nothing.
 
@@ -673,5 +674,42 @@ theorem C20_queuesWF_counterexample :
     decide
   · rw [BertE.Close.close_cxSys_queues]
     decide
+
+end BertE.C20
+
+
+/-! ### Work package Full2: one branch per name is part of the invariant
+
+`Full2.SysInv` carries `KeysNodup s.remote` (every `RefMap.set` / `del` keeps it: `full2_step_keys`); the hypothesis
+`hk` of the theorems above is discharged. `hlast` stays: without it the statement is false (D20,
+`C20_queuesWF_counterexample`). -/
+namespace BertE.C20
+open BertE.Git BertE.Flow BertE.Admin
+
+theorem C20_queues_of_inv2 (s : Sys) (h : BertE.Full2.SysInv s) (hnt : BertE.Close.NoTies s) :
+    queuesOf s.g s.remote = (queueKeys s.remote).map fun d => (d, BertE.Select.idsOn s d) :=
+  C20_queues_of_inv s h.invV hnt h.keys
+
+/-- `C20_queuesWF_of_inv_partial` without `KeysNodup` (`_partial`: `hlast` remains — D20) -/
+theorem C20_queuesWF_of_inv2_partial (s : Sys) (h : BertE.Full2.SysInv s) (hnt : BertE.Close.NoTies s)
+    (hlast : ∀ l, lastDev (queuesOf s.g s.remote) = some l → ∀ g, BertE.Select.gDev s = some g →
+      l.1 = BertE.Select.devDest g) :
+    QueuesWF (queuesOf s.g s.remote) :=
+  C20_queuesWF_of_inv_partial s h.invV hnt h.keys hlast
+
+/-- `C20_resubmit_order_inv_partial` without `KeysNodup` (`_partial`: `hlast` remains — D20) -/
+theorem C20_resubmit_order_inv2_partial (s : Sys) (h : BertE.Full2.SysInv s) (hnt : BertE.Close.NoTies s)
+    (hlast : ∀ l, lastDev (queuesOf s.g s.remote) = some l → ∀ g, BertE.Select.gDev s = some g →
+      l.1 = BertE.Select.devDest g)
+    (st : Repo) (hg : st.g = s.g) (hh : st.heads = s.remote) :
+    (∀ p, p ∈ queuedPrs (queuesOf st.g st.heads) ↔ Queued st.heads p) ∧
+    (queuedPrs (queuesOf st.g st.heads)).Nodup ∧
+    (∀ e ∈ queuesOf st.g st.heads, e.2.reverse.Sublist (queuedPrs (queuesOf st.g st.heads))) :=
+  C20_resubmit_order_inv_partial s h.invV hnt h.keys hlast st hg hh
+
+example := C20_queues_of_inv2 BertE.Select.exSys BertE.Full2.full2_exSys_sysInv (by decide)
+example := C20_queuesWF_of_inv2_partial BertE.Select.exSys BertE.Full2.full2_exSys_sysInv (by decide) (by decide)
+example := C20_resubmit_order_inv2_partial BertE.Select.exSys BertE.Full2.full2_exSys_sysInv (by decide) (by decide)
+  ⟨BertE.Select.exSys.g, BertE.Select.exSys.remote, [], true⟩ rfl rfl
 
 end BertE.C20
